@@ -48,6 +48,8 @@ def table_for(prog, A, fids, effect_pred, write_pred=None):
                     dsc, pos = guards.bool_desc(cb, Sc, 0, 2)
                     if dsc in ("flag", "expr"):
                         continue
+                    if cid in _combinator_closures(prog, b):
+                        continue        # its test is part of the formula of the Option combinator it is passed to (guards.combinator_formula)
                     if pos and re.fullmatch(r"eq\((arg\d+, arg1\.#\d+|arg1\.#\d+, arg\d+)\)", dsc):
                         continue        # `|e| e == x`: plain membership, the same test as `contains(&x)` (see guards.canon_test)
                     rows.append(["predicate closure", [dsc if pos else "!(" + dsc + ")"]])
@@ -56,6 +58,28 @@ def table_for(prog, A, fids, effect_pred, write_pred=None):
             out.setdefault(key, []).extend(rows)
             out[key].sort(key=lambda r: (r[0], r[1]))
     return out
+
+
+_cc_cache = {}
+
+
+def _combinator_closures(prog, b):
+    """closures of function b that are handed to Option::is_some_and / is_none_or / map_or / map"""
+    if b.id not in _cc_cache:
+        out = set()
+        cl_of = {}
+        for bi, si, st in b.stmts():
+            if st["k"] == "assign" and not st["p"]["p"] and st["rv"]["r"] == "agg" and st["rv"].get("kind") == "closure":
+                cl_of[st["p"]["l"]] = st["rv"].get("cl")
+        for bi, t in b.calls():
+            nm = mir.strip_generics((t.get("res") or "").lstrip("?"))
+            if re.search(r"Option::(is_some_and|is_none_or|map_or|map)$", nm):
+                for a in t["args"]:
+                    pl = mir.op_place(a)
+                    if pl is not None and not pl["p"] and pl["l"] in cl_of:
+                        out.add(cl_of[pl["l"]])
+        _cc_cache[b.id] = out
+    return _cc_cache[b.id]
 
 
 def load_oracle(section):
